@@ -299,8 +299,17 @@ func freshTime(r *rand.Rand) time.Time {
 	return t
 }
 
+// CollidingNames: pairs of different strings with the same 32-bit FNV-1a hash (the first two pairs also have
+// equal lengths): what a lookup that trusts a hash cannot tell apart.
+var CollidingNames = []string{"declinate", "macallums", "altarages", "zinkes", "costarring", "liquid", "altarage", "zinke"}
+
 func mapKey(r *rand.Rand, i int) string {
 	switch r.IntN(6) {
+	case 1:
+		if i < len(CollidingNames) {
+			return CollidingNames[i]
+		}
+		return "k" + string(rune('a'+i)) + string(rune('0'+r.IntN(10)))
 	case 0:
 		return pick(r, []string{"", "k", "ключ", "\xff\x00", "a b", "k\"q"}) + string(rune('a'+i))
 	default:
